@@ -1,3 +1,4 @@
+import Mqtt5V.Proofs.TraceTruth
 import Mqtt5V.Model.Verdict
 import Mqtt5V.Props.C01
 /-! # C14 — SUBSCRIBE/UNSUBSCRIBE complete with exactly the broker's per-topic verdicts (matching + verdict core)
@@ -62,5 +63,48 @@ theorem suback_routed_by_code_and_id (r : Model.Replies.R) (code p t : Nat) :
 
 /-- non-vacuity and the repaired defect as a fact about the model: 3 codes (one invalid) for 2 topics is not success -/
 example : verdict .suback 2 [0x00, 0xFF, 0x01] = none ∧ verdict .suback 2 [0x00, 0x87] = some [0x00, 0x87] := by decide
+
+/-! ## the composed client model (`Model/Trace.lean`)
+One labelled transition system for the whole outbound path of the client above the stream (API call → sender → reply map → completion),
+over the events an observer of the real client sees.  The tie: `lib/trace_check.py` replays every H-client transcript of the real
+`mqtt_client` through the compiled model (`mdrv trace`); a transcript the model refuses is a broken correspondence.  The theorems below
+hold for EVERY event list the model accepts, of any length. -/
+section ComposedModel
+open Mqtt5V.Model
+
+/-- **C14 end to end, every accepted history**: when an `async_subscribe` / `async_unsubscribe` of `n` topics completes without error
+with reason codes `rcs`, then earlier its SUBSCRIBE / UNSUBSCRIBE was written with a non-zero identifier `p`, after that a well-formed
+SUBACK / UNSUBACK for `p` was read, and `rcs` are exactly the codes of that acknowledgement: one per topic, all admissible
+(`goodAck` = `Verdict.verdict … = some …`), and `props` are its properties. -/
+theorem composed_subscribe_success_truthful (pre post : List Trace.Ev) (op : Nat) (rcs : List Nat) (props : Nat)
+    (hacc : Trace.accepts (pre ++ Trace.Ev.doneOk op rcs props :: post) = true) :
+    ∃ p k n, Trace.Ev.init op k n ∈ pre ∧ p ≠ 0 ∧ Trace.Truthful pre op p k n rcs props :=
+  Mqtt5V.Proofs.Trace.success_truthful hacc
+
+/-- what `goodAck` means for the codes handed over: exactly one per requested topic, each admitted by the category table -/
+theorem composed_good_ack_codes (a : Trace.Ack) (n : Nat) (h : Trace.goodAck a n = true) :
+    a.wf = true ∧ a.rcs.length = n ∧ ∀ c ∈ a.rcs, admitted a.t.cat c = true := by
+  simp only [Trace.goodAck, Bool.and_eq_true, Option.isSome_iff_exists] at h
+  obtain ⟨hw, v, hv⟩ := h
+  simp only [verdict] at hv
+  split at hv
+  · cases hv
+  · rename_i hc
+    simp only [bne_iff_ne, ne_eq, Bool.or_eq_true, not_or, Decidable.not_not, decide_eq_true_eq, Bool.not_eq_true, bne_eq_false_iff_eq] at hc
+    refine ⟨hw, hc.1, ?_⟩
+    have h1 : (toReasonCodes a.t.cat a.rcs).length = a.rcs.length := by rw [hc.1, hc.2]
+    intro c hcm
+    unfold toReasonCodes at h1
+    exact (List.length_filter_eq_length_iff.1 h1) c hcm
+
+example : Trace.accepts [.init 1 .sub 2, .connUp none, .wr, .pk (.subscribe 1 9 4), .wrOk, .rx ⟨.suback, 9, [1, 0x87], 2, true⟩,
+    .doneOk 1 [1, 0x87] 2] = true := by decide
+/-- a SUBACK with a wrong number of codes, or an inadmissible one, never leads to a success -/
+example : Trace.accepts [.init 1 .sub 2, .connUp none, .wr, .pk (.subscribe 1 9 4), .wrOk, .rx ⟨.suback, 9, [1], 2, true⟩,
+    .doneOk 1 [1] 2] = false := by decide
+example : Trace.accepts [.init 1 .sub 1, .connUp none, .wr, .pk (.subscribe 1 9 4), .wrOk, .rx ⟨.suback, 9, [0xFF], 2, true⟩,
+    .doneOk 1 [0xFF] 2] = false := by decide
+
+end ComposedModel
 
 end Mqtt5V.Props.C14
